@@ -201,6 +201,49 @@ LabelsC19(e) ==
     L(e.m = One, "C19.modulus_one") \cup L(BitLen(e.m) % 64 = 0, "C19.modulus_top_bit_set") \cup L(H(e, "fail"), "C19.exhausted_stream")
   ELSE {}
 
+LabelsC12(e) ==
+  L(e.op = "mk" /\ H(e, "x") /\ e.x = Zero, "C12.from_zero")
+  \cup L(e.op = "mk" /\ H(e, "x") /\ H(e, "w") /\ e.w = "odd" /\ e.x # Zero /\ Mod2k(e.x, 1) = Zero, "C12.odd_from_even_nonzero")
+  \cup L(e.op = "random", "C12.random")
+  \cup L(e.op = "decode", "C12.decode")
+  \cup L(e.op = "serde", "C12.serde")
+  \cup L(e.op = "select", "C12.select")
+  \cup L(e.op = "widen", "C12.widen")
+
+LabelsC15(e) ==
+  IF e.op # "grp" THEN {} ELSE
+  L(e.cls \in {"cadd", "padd"} /\ ~Fits(Add(e.a, e.b), e.bits), "C15.add_overflows")
+  \cup L(e.cls \in {"cmul", "pmul"} /\ ~Fits(Mul(e.a, e.b), e.bits), "C15.mul_overflows")
+  \cup L(e.cls \in {"shl", "shr", "wshl"} /\ e.s >= e.bits, "C15.shift_at_or_above_width")
+  \cup L(e.cls = "invmod" , "C15.inversion_group")
+  \cup L(e.cls = "mulmod" /\ H(e, "m") /\ e.a # Zero /\ e.b # Zero /\ Mod(Mul(e.a, e.b), e.m) = Zero, "C15.mulmod_product_multiple_of_modulus")
+  \cup L(e.cls = "konst", "C15.constant_group")
+  \cup L(e.cls = "same", "C15.const_vs_runtime_group")
+  \cup L(e.cls \in {"powmod", "powk"}, "C15.pow_group")
+
+LabelsC16(e) ==
+  L(e.op = "bdec" /\ e.prec % 64 # 0, "C16.boxed_decode_unaligned_precision")
+  \cup L(e.op = "bdec" /\ Len(e.src) * 8 > e.prec, "C16.boxed_decode_input_longer_than_precision")
+  \cup L(e.op = "hexdec" /\ H(e, "bad"), "C16.hex_decode")
+  \cup L(e.op = "bresize" /\ e.tb % 64 # 0, "C16.boxed_resize_unaligned_target")
+  \cup L(e.op = "sext" /\ e.yb > e.xb /\ BitLen(e.x) = e.xb, "C16.sign_extension_of_negative")
+  \cup L(e.op = "trunc" /\ e.yb < e.xb, "C16.truncating_resize")
+  \cup L(e.op \in {"concat", "split"}, "C16.concat_split")
+  \cup L(e.op \in {"ser", "de"}, "C16.serde")
+
+LabelsC18(e) ==
+  L(e.op = "der_dec" /\ Len(e.src) = 0, "C18.der_empty_input")
+  \cup L(e.op = "der_dec" /\ Len(e.src) >= 3 /\ e.src[1] = 2 /\ e.src[3] >= 128, "C18.der_negative_content")
+  \cup L(e.op = "der_dec" /\ Len(e.src) >= 4 /\ e.src[1] = 2 /\ e.src[3] = 0 /\ e.src[4] < 128, "C18.der_superfluous_leading_zero")
+  \cup L(e.op = "der_dec" /\ Len(e.src) >= 2 /\ e.src[1] = 2 /\ e.src[2] = 0, "C18.der_zero_length")
+  \cup L(e.op = "der_dec" /\ Len(e.src) >= 2 /\ e.src[1] = 2 /\ e.src[2] > 128, "C18.der_long_form_length")
+  \cup L(e.op = "der_dec" /\ Len(e.src) >= 1 /\ e.src[1] # 2, "C18.der_wrong_tag")
+  \cup L(e.op = "der_enc" /\ BitLen(e.x) % 8 = 0 /\ e.x # Zero, "C18.der_value_needs_leading_zero_octet")
+  \cup L(e.op = "rlp_dec" /\ Len(e.src) = 1 /\ e.src[1] < 128, "C18.rlp_single_octet_item")
+  \cup L(e.op = "rlp_dec" /\ Len(e.src) >= 2 /\ e.src[1] > 128 /\ e.src[1] < 184 /\ e.src[2] = 0, "C18.rlp_leading_zero_payload")
+  \cup L(e.op = "rlp_dec" /\ Len(e.src) >= 1 /\ e.src[1] >= 184 /\ e.src[1] < 192, "C18.rlp_long_form")
+  \cup L(e.op = "rlp_dec" /\ Len(e.src) >= 1 /\ e.src[1] >= 192, "C18.rlp_list")
+
 LabelsOf(e, rg) ==
   CASE e.p = "C02" -> LabelsC02(e)
     [] e.p = "C03" -> LabelsC03(e)
@@ -211,9 +254,13 @@ LabelsOf(e, rg) ==
     [] e.p = "C08" -> LabelsC08(e, rg)
     [] e.p = "C09" -> LabelsC09(e)
     [] e.p = "C10" -> LabelsC10(e)
+    [] e.p = "C12" -> LabelsC12(e)
     [] e.p = "C13" -> LabelsC13(e)
     [] e.p = "C14" -> LabelsC14(e)
+    [] e.p = "C15" -> LabelsC15(e)
+    [] e.p = "C16" -> LabelsC16(e)
     [] e.p = "C17" -> LabelsC17(e)
+    [] e.p = "C18" -> LabelsC18(e)
     [] e.p = "C19" -> LabelsC19(e)
     [] e.p = "C20" -> LabelsC20(e)
     [] OTHER -> {}
